@@ -179,6 +179,12 @@ class SymCtx:
   def note(self, s):
     self.notes.append(s)
 
+  def assume_pos(self, x):
+    """hypothesis x > 0, also registered for the engine's syntactic sign reasoning"""
+    t = _t(x, True)
+    self.ex.assume_checked(t > 0)
+    core.mark_pos(t)
+
   def lemma_pos(self, x, timeout_ms=60000):
     """proves x > 0 under the path condition once, then lets the engine use it syntactically
     (no fork on x == 0 in divisions, no negativity branch in sqrt)"""
@@ -364,6 +370,8 @@ class ConcCtx:
     if not float(x) > 0:
       raise Reject()
 
+  assume_pos = lemma_pos
+
   def require(self, name, c, tol=None, detail=None):
     ok = bool(c)
     self.checked.append(name)
@@ -421,7 +429,7 @@ def run_symbolic(case):
   except Exception as e:
     status, err = 'harness_error', traceback.format_exc()[-2000:]
   after = core.stats_snapshot()
-  delta = {k: after[k] - before[k] for k in after}
+  delta = {k: after[k] - before.get(k, 0) for k in after}
   if status == 'ok':
     if path_exc and not case.get('allow_path_exceptions'):
       status, err = 'path_exception', 'unhandled exception on a path: ' + path_exc[0]
